@@ -993,6 +993,56 @@ def gen_adopt_case(rng):
     return [prog, keep]
 
 
+def gen_wide_case(rng, n_memos, n_effs, tree=False):
+    """width instead of depth: two signals with n_memos direct subscribers (memos of every flavour, some conditional),
+    n_effs effects reading a signal and a few memos; with `tree`, all effects but the first live under the owner of the
+    first (an owner with many children) and the history pauses / resumes / disposes that owner"""
+    prog = [[0, rng.choice([0, 1, 2, 3, 4]), rng.randint(0, 3)], [0, rng.choice([0, 1, 2, 4]), rng.randint(0, 3)]]
+    memos = []
+    for _ in range(n_memos):
+        r = rng.random()
+        if r < 0.5:
+            body = [4, [1, 0], [0, rng.randint(0, 2)]]
+        elif r < 0.75:
+            body = [4, [1, 0], [1, 1]]
+        elif r < 0.9:
+            body = [6, [5, [1, 1], [0, 2]], [1, 0], [0, 7]]
+        else:
+            body = [4, [1, 0], [3, [1, 1]]]
+        prog.append([1, rng.choice([0, 0, 0, 1, 2]), rng.randint(0, 1), body])
+        memos.append(len(prog) - 1)
+    first = None
+    effs = []
+    for k in range(n_effs):
+        body = [1, rng.choice([0, 0, 1])]
+        for m in rng.sample(memos, min(len(memos), rng.randint(1, 3))):
+            body = [4, body, [1, m]]
+        nd = [3, rng.choice([0, 0, 1, 2, 3, 4]), body, [0, 0]]
+        if tree and first is not None:
+            nd.append(first)
+        prog.append(nd)
+        effs.append(len(prog) - 1)
+        if first is None:
+            first = len(prog) - 1
+    ops = [[4]] if effs else []
+    for _ in range(rng.randint(3, 7)):
+        r = rng.random()
+        if tree and effs and r < 0.3:
+            ops.append([rng.choice([5, 6, 6]), first])
+        elif tree and effs and r < 0.34:
+            ops.append([7, rng.choice(effs[1:] or effs)])
+        ops.append([0, rng.choice([0, 0, 1]), rng.randint(0, 4)])
+        if effs:
+            ops.append([4] if rng.random() < 0.7 else [3, rng.randint(0, n_effs)])
+        for m in rng.sample(memos, min(len(memos), 3)):
+            ops.append([2, m])
+    if tree and effs:
+        ops += [[6, first], [0, 0, 5], [0, 1, 5]]
+    if effs:
+        ops.append([4])
+    return [prog, ops]
+
+
 def interleave(main, extras, every):
     """yield the items of `main`, one of `extras` after every `every` of them (expensive cases spread over the
     shards the driver cuts the stream into), the rest at the end"""
